@@ -35,6 +35,9 @@ func (g *Gen) preludeOpaque(opaque []string) string {
 	for _, p := range g.prel {
 		sb.WriteString(hideDef(p, opaque) + "\n")
 	}
+	for _, a := range g.globalAx {
+		sb.WriteString(a + "\n")
+	}
 	return sb.String()
 }
 
